@@ -201,7 +201,11 @@ func main() {
 	addTree(filepath.Join(*verif, "export/queue"), "pkg/queue")
 	addTree(filepath.Join(*verif, "export/ring"), "pkg/buffer/ring")
 	// flavour file
-	fl := fmt.Sprintf("//go:build verif\n\npackage vsys\n\n// Flavour of this build (generated by vinstr).\nconst (\n\tShimmed = %v\n\tPointed = %v\n\tPooled  = %v\n)\n", *shim, *points, *pool)
+	fl := fmt.Sprintf("//go:build verif\n\npackage vsys\n\n// Flavour of this build (generated by vinstr).\nconst (\n\tShimmed = %v\n\tPointed = %v\n\tPooled  = %v\n)\n\n// PointTable[i-1] describes yield point i: \"id file:line:col kind\".\nvar PointTable = []string{\n", *shim, *points, *pool)
+	for _, p := range pointTable {
+		fl += "\t" + strconv.Quote(p) + ",\n"
+	}
+	fl += "}\n"
 	flp := filepath.Join(*out, "zz_flavour.go")
 	os.MkdirAll(*out, 0o755)
 	os.WriteFile(flp, []byte(fl), 0o644)
